@@ -165,6 +165,18 @@ Theorem c01_split_off_back_partition : forall split records pipeline output,
 Proof. exact SplitOffProofs.split_off_back_partition. Qed.
 Print Assumptions c01_split_off_back_partition.
 
+(* ... and, for a table that passes the check of (c), the kinds of the consumed suffix are clause-ordered whatever made the walk
+   stop (the table or a requirement): the link between the full loop and c01_split_back_clause_ordered *)
+Theorem c01_split_off_back_clause_ordered : forall split records,
+  (forall k, records k = match k with KComputeAgg => false | _ => true end) ->
+  (forall k f y, split k f = false -> In y f -> may_precede k y = true) ->
+  forall pipeline output,
+  let r := SplitOff.split_off_back split records pipeline output in
+  exists remaining suffix, pipeline = remaining ++ suffix /\
+    res_atomic r = TSelect (res_select r) :: filter SplitOffProofs.notsel suffix /\ clause_ordered (map SplitOff.kind_of suffix) = true.
+Proof. exact SplitOffProofs.split_off_back_clause_ordered. Qed.
+Print Assumptions c01_split_off_back_clause_ordered.
+
 (* every split is forced: by the table, or by a Compute (or a column of an Aggregate) whose complexity exceeds what its users allow *)
 Theorem c01_split_off_back_stop_forced : forall split records pipeline output w,
   res_why (SplitOff.split_off_back split records pipeline output) = Some w ->
